@@ -27,6 +27,11 @@ import MW.Lemmas.RemoveInterleave6Ex
 import MW.Lemmas.RemoveJoinEx
 import MW.Lemmas.RemoveFlaggedEx
 import MW.Lemmas.RemoveSimEx
+import MW.Lemmas.RemoveSimWEx
+import MW.Lemmas.RemoveSimWConn
+import MW.Lemmas.RemoveSimWFrame
+import MW.Lemmas.RemoveUpperW
+import MW.Lemmas.RemoveBelowEx
 namespace MW.Props.C08
 open MW MW.Model.Ledger MW.Model.Remove MW.Lemmas.RemoveScan MW.Lemmas.RemoveStep MW.Lemmas.RemoveFrame
   MW.Lemmas.RemoveProgress
@@ -842,8 +847,12 @@ example (o : StepOut) (h : removeStep 20000 (MW.Lemmas.PendHist.exE.ctx MW.Lemma
     (`remove_interleaved_cex_repaired`), every removal step keeps "each credit / debit has its tx record", which is what
     Rollback needs to reach them (`remove_step_keeps_reach`), and the proved domains are unchanged (`remove_interleaved_ext`,
     `…_above`, `…_above_nopend`, `remove_after_follower_projects`).  Not proved: reorganisations between two steps that go
-    below the tip the follower had at the first step, in general (needs `MW.Lemmas.RemoveSim.Sub` with the wallet-keyed
-    buckets of `w` allowed to differ, and `MW.Lemmas.RemoveSimRb.disconnectBlock_sim` without `NewEq`). -/
+    below the tip the follower had at the first step — until Round 7: `remove_interleaved_below` (section Round7 below)
+    proves the statement for histories inside `DomW`, reorganisations of ANY depth between the steps included.  What
+    still separates this `def` from a theorem: its hypotheses give the pending-side clause only at the START (`DomW` asks
+    `PendOK` at every removal step; carried as an invariant only in the domains of `remove_interleaved_above_nopend`),
+    they do not ask that block ids determine blocks (`IdInj`) nor that a restarted follower reports the stored best
+    block, and a genesis re-announcement is not excluded. -/
 def remove_interleaved_projects_full : Prop :=
   ∀ (limit : Nat) (c : Ctx) (w : Wid) (addrs : List Addr) (own' : Own) (G : Block) (x0 x : ISt) (evs : List IEv)
     (ws' : List Wid),
@@ -1119,6 +1128,191 @@ theorem remove_upper_join {c : Ctx} {w : Wid} {addrs : List Addr} {own' : Own} {
     UpperOK c w own' chain (joinBookK c w own' chain k) := upperOK_join H hKN hk
 
 end Round5
+
+
+-- ------------------------------------------------------------------ Round 7: reorganisations BELOW the floor, step by step
+section Round7
+open MW.Lemmas.RemoveSim MW.Lemmas.RemoveSimW MW.Lemmas.RemoveKeep MW.Lemmas.RemoveUpper MW.Lemmas.RemoveInv
+  MW.Lemmas.RemoveInterleave MW.Lemmas.Ledger MW.Lemmas.LedgerWFCred MW.Spec.Chain MW.Spec.Books
+
+/-- **remove_relaxed_step** (step 1 towards the full interleaving statement).  `SubW w addrs g s`: the real store `s` is
+    the ghost store `g` (the store as it would be had no removal step run) minus credits paying `addrs` — each with its
+    debit (`debGone`) —, minus tx records, with the block records trimmed accordingly (`BlkRel`); the buckets keyed by
+    wallet id agree OFF `w` only (after a rollback below the floor the entries of `w` are stale on the real store).  A
+    removal step that does not finish keeps the relation (the ghost is fixed). -/
+theorem remove_relaxed_step {limit : Nat} {c : Ctx} {w : Wid} {addrs : List Addr} {g s : Store} {o : StepOut}
+    (hne : addrs ≠ []) (hG : SubW w addrs g s) (hn : KeysNodup s.credits) (hGD : GhostDeb g) (hGB : GhostBlk g)
+    (h : removeStep limit c w addrs s = some o) (hf : o.finish = false) : SubW w addrs g o.s :=
+  subW_removeStep_parked hne hG hn hGD hGB h hf
+
+/-- non-vacuity: the first step (size 1) of the D45 history — the real store then lacks the credit (C1, B1, 1) and the
+    debit (X3, B2, 1) which the ghost has -/
+example : SubW "W2" ["A2"] MW.Lemmas.RemoveMidCex.stF s1 ∧
+    AMap.get s1.credits ⟨"C1", ⟨1, "B1"⟩, 1⟩ = none ∧
+    (AMap.get MW.Lemmas.RemoveMidCex.stF.credits ⟨"C1", ⟨1, "B1"⟩, 1⟩).isSome = true := ⟨subW_s1, s1_lacks.1, s1_lacks.2.1⟩
+
+/-- **remove_disconnect_below** (step 2).  ONE block disconnected under the relaxed relation, WITHOUT `NewEq` (the
+    records under the block need not agree: the block may have been connected before the first removal step).  `g` has
+    its tip at height `h`, `s` is `g` minus records of `w`, every credit / debit left in `s` has its tx record (`Reach`,
+    kept by every removal step since the D45 repair: `remove_step_keeps_reach`), the ghost's credits pay the address of
+    the output they record (`GhostCV`), `addrs` are `w`'s in the keystore view (`OwnW`).  If `disconnectBlock` succeeds on
+    both stores — in `irun … = some x` every notification succeeded on the real store, the ghost succeeds by
+    `remove_flagged_follower_keeps` — the results are related again, and `Reach` of the new real store follows from
+    `Reach` of the new ghost.  What the ghost rolls back alone (records the real store lacks) touches only entries keyed
+    by `w`.  NOT decided here: whether Rollback can fail on the real store on stale entries of `w`. -/
+theorem remove_disconnect_below {c : Ctx} {w : Wid} {addrs : List Addr} {g s g' s' : Store} {h : Nat}
+    (hOwn : OwnW c w addrs) (hSub : SubW w addrs g s) (hR : Reach s) (hCV : GhostCV c g) (hh : g.syncedTo = h)
+    (hg : disconnectBlock c g h = .ok g') (hs : disconnectBlock c s h = .ok s') :
+    SubW w addrs g' s' ∧ (Reach g' → Reach s') := disconnectBlock_rel hOwn hSub hR hCV hh hg hs
+
+/-- non-vacuity: on the D45 history the tip block B2 — connected BEFORE the first removal step; X3's debit of the
+    deleted credit is under it — is disconnected on the flagged store and on the store after the first step -/
+example : ∃ g' s', disconnectBlock { MW.Lemmas.RemoveMidCex.ctx with node := MW.Lemmas.RemoveMidCex.nodeB }
+      MW.Lemmas.RemoveMidCex.stF 2 = .ok g' ∧
+    disconnectBlock { MW.Lemmas.RemoveMidCex.ctx with node := MW.Lemmas.RemoveMidCex.nodeB } s1 2 = .ok s' ∧
+    SubW "W2" ["A2"] g' s' := disconnect_ex
+
+/-- **remove_reorg_disconnect_below** (step 3, the disconnect half of a reorganisation, ANY number of blocks).  The
+    loops of reorg step 2 (disconnectDown, walkBack, the final disconnect) branch on heights, the synced-to table and the
+    block files only, so two successful runs stay in lock step; `J g k` is any ghost-side invariant "the ghost follows
+    the chain up to height `k`" that provides the ghost's tip height, `GhostCV`, `Reach` and is kept by the ghost's
+    disconnects (instance: `FJ`, `remove_flagged_follower_keeps`). -/
+theorem remove_reorg_disconnect_below {c : Ctx} {w : Wid} {addrs : List Addr} {J : Store → Nat → Prop}
+    (hOwn : OwnW c w addrs)
+    (hJs : ∀ g k, J g k → g.syncedTo = k ∧ GhostCV c g ∧ Reach g)
+    (hJd : ∀ g g' k, 0 < k → J g k → disconnectBlock c g k = .ok g' → J g' (k - 1))
+    {g s : Store} {best : BlockMeta} {nb : Block} {tc : List Block} {rg rs : Store × List Nat × List Block}
+    (hJ : J g best.height) (hSub : SubW w addrs g s) (hR : Reach s)
+    (hg : reorgDisconnect c g best nb tc = .ok rg) (hs : reorgDisconnect c s best nb tc = .ok rs) :
+    SubW w addrs rg.1 rs.1 ∧ Reach rs.1 ∧ rs.2 = rg.2 := reorgDisconnect_subW hOwn hJs hJd hJ hSub hR hg hs
+
+/-- **remove_connect_relaxed** (the connect half).  `filterBlock` for a ready set without `w`: if it succeeds on the
+    ghost it succeeds on the real store with the same confirmed ids, and the results are related by `SubW` again
+    (`remove_connect_simulation` with the wallet-keyed buckets of `w` free). -/
+theorem remove_connect_relaxed {w : Wid} {addrs : List Addr} {ready : List Wid} {c : Ctx} {g s g' : Store} {b : Block}
+    {conf : List TxId}
+    (hSub : SubW w addrs g s) (hnr : ready.contains w = false)
+    (hng : KeysNodup g.credits) (hns : KeysNodup s.credits)
+    (hF : Fresh ⟨b.height, b.id⟩ g) (hFs : AMap.get s.blocks b.height = none) (hC : CoinsOK addrs ready g)
+    (hfind : ∀ id, existCreditFromTx g id = true → (c.node.fetchTx id).isSome = true)
+    (hown : ∀ (id : TxId) (pt : Tx) (idx : Nat) (o : Out) (w' : Wid) (ch : Bool), existCreditFromTx g id = true →
+      existCreditFromTx s id = false → c.node.fetchTx id = some pt → pt.outs[idx]? = some o → o.cls ≠ .raw →
+      AMap.get c.own o.addr = some (w', ch) → ready.contains w' = false)
+    (hrel : ∀ a w' ch, AMap.get c.own a = some (w', ch) → ready.contains w' = true → addrs.contains a = false)
+    (hdeb : ∀ dk d, AMap.get g.debits dk = some d → d.2.blk ≠ ⟨b.height, b.id⟩)
+    (hg : filterBlock c g ready b = .ok (g', conf)) :
+    ∃ s', filterBlock c s ready b = .ok (s', conf) ∧ SubW w addrs g' s' ∧
+      KeysNodup s'.credits ∧ KeysNodup g'.credits ∧ CoinsOK addrs ready g' :=
+  filterBlock_simW hSub hnr hng hns hF hFs hC hfind hown hrel hdeb hg
+
+/-- **remove_finish_relaxed.**  The in-progress invariant with the buckets keyed by wallet id characterised OFF `w` only
+    (`MidUW`; `MidU` implies it): every step keeps it, the finishing step — which deletes every entry keyed by `w` —
+    gives C01's invariant for the context without the keystore, the worker loop likewise. -/
+theorem remove_finish_relaxed {c : Ctx} {w : Wid} {addrs : List Addr} {own' : Own} {chain : List Block} {U : Book}
+    (limit : Nat) (H : RemHyp c w addrs own' chain) (HU : UpperOK c w own' chain U) {s : Store}
+    (hM : MidUW c w addrs own' s chain U) (ws' : List Wid) (hws : ∀ x ∈ ws', x ∈ c.wallets)
+    {o : StepOut} (h : removeStep limit c w addrs s = some o) (hf : o.finish = true) :
+    Inv { c with own := own', wallets := ws' } o.s chain := finish_projects_UW limit H HU hM ws' hws h hf
+
+theorem remove_parked_relaxed {c : Ctx} {w : Wid} {addrs : List Addr} {own' : Own} {chain : List Block} {U : Book}
+    (limit : Nat) (H : RemHyp c w addrs own' chain) (HU : UpperOK c w own' chain U) {s : Store}
+    (hM : MidUW c w addrs own' s chain U) {o : StepOut} (h : removeStep limit c w addrs s = some o)
+    (hf : o.finish = false) : MidUW c w addrs own' o.s chain U := parked_step_UW limit H HU hM h hf
+
+/-- non-vacuity of the two: the concrete store of `MW.Lemmas.RemoveEx` satisfies `MidU`, hence `MidUW` -/
+example : MidUW MW.Lemmas.RemoveEx.ctx "W2" ["A2"] MW.Lemmas.RemoveEx.own' MW.Lemmas.RemoveEx.st MW.Lemmas.RemoveEx.chain
+    (bookOf MW.Lemmas.RemoveEx.ctx.p MW.Lemmas.RemoveEx.ctx.own MW.Lemmas.RemoveEx.chain) :=
+  midUW_of_midU (mid_to_midU (inv_to_mid MW.Lemmas.RemoveEx.remHyp MW.Lemmas.RemoveEx.inv MW.Lemmas.RemoveEx.st_nodup
+    MW.Lemmas.RemoveEx.st_pend))
+
+/-- **remove_disconnect_frame** — what `disconnectBlock` of the tip leaves alone, for ANY store: tx records, debits and
+    credits off the tip's height are unchanged (a credit may be un-spent because a debit at the tip's height pointing at
+    it went), nothing appears, the other block records stay and the tip's is gone. -/
+theorem remove_disconnect_frame {c : Ctx} {s s' : Store} {h : Nat} (hh : s.syncedTo = h)
+    (hd : disconnectBlock c s h = .ok s') :
+    RbFrame h s s' ∧ (∀ h', h' ≠ h → AMap.get s'.blocks h' = AMap.get s.blocks h') ∧ AMap.get s'.blocks h = none :=
+  disconnectBlock_frame hh hd
+
+
+/-- **remove_interleaved_below** (step 4: the assembly).  REORGANISATIONS OF ANY DEPTH BETWEEN THE REMOVAL STEPS — above
+    or BELOW the tip the follower had at the first step, also below the height at which the wallet was flagged.  From a
+    store that follows the chain with `w` flagged (`Phase1`), any history inside `DomW` (= `DomC` of
+    `remove_interleaved_above` WITHOUT its floor clause: a removal step needs the pending-side clause `PendOK`; a tip
+    notification announces any node state — `NodeOK`, block ids determine blocks; unconfirmed transactions anywhere; a
+    restarted follower reports the stored best block) that RUNS — `irun … = some x`: every database transaction of the
+    history succeeded, in particular the follower's on the real store — and ends with the finishing step leaves C01's
+    invariant for the table without `w`, on the chain the follower was last told about.
+    Proof: invariant `PhaseW` = a ghost store following the chain with `w` flagged (`GhostX`) + the real store related by
+    `SubW` + `Reach` + the relaxed in-progress invariant `MidCW`; a notification is run on both stores
+    (`p2w_processM`: the ghost's run exists by `FJ`, the disconnect loops are in lock step, each disconnected block is
+    `p2w_disc` — `remove_disconnect_below` + `midUW_shrink`, the ghost height drops when the block was at it — each
+    connected block `p2w_connect`).  This closes gap (1) of Round 6 for `remove_interleaved_projects_full`; what keeps the
+    latter an open `def` is the pending side (`PendOK` at the steps is a domain clause here) and the side conditions on
+    notifications / restarts, as for `remove_interleaved_above`.  NOT proved: that the follower's transaction cannot
+    FAIL on the real store because of stale entries of `w` (then `irun` is `none` and the statement says nothing). -/
+theorem remove_interleaved_below {limit : Nat} {c : Ctx} {w : Wid} {addrs : List Addr} {own' : Own} {G : Block}
+    {x0 x : ISt} {evs : List IEv} {ws' : List Wid}
+    (hP : Phase1 c w G x0) (hS : Static c w addrs own') (hD : DomW limit c w addrs G x0 evs)
+    (hrun : irun limit c w addrs x0 evs = some x) (hfin : x.fin = true) (hws : ∀ y ∈ ws', y ∈ c.wallets) :
+    Inv { c with own := own', wallets := ws', node := x.node } x.s x.node.chain :=
+  MW.Lemmas.RemoveInterleave.remove_interleaved_below hP hS hD hrun hfin hws
+
+/-- non-vacuity: the D45 history (removal step · the node replaces B1 and B2, connected before the first step · finishing
+    step) is inside `DomW`, it runs, and — by the general theorem, not by evaluation — ends in C01's invariant for W1
+    alone on chain B -/
+example (x : ISt) (h : irun 1 MW.Lemmas.RemoveMidCex.ctx "W2" ["A2"] MW.Lemmas.RemoveMidCex.x0
+      MW.Lemmas.RemoveMidCex.evs = some x) :
+    x.node = MW.Lemmas.RemoveMidCex.nodeB ∧
+    Inv { MW.Lemmas.RemoveMidCex.ctx with own := MW.Lemmas.RemoveMidCex.own', wallets := ["W1"], node := x.node } x.s
+      x.node.chain := MW.Lemmas.RemoveBelowEx.d45_history_inv x h
+
+/-- **remove_notify_below** — one tip notification (extension or reorganisation of any depth) between two removal steps:
+    if its database transaction succeeded on the real store, the in-progress state holds for the announced chain -/
+theorem remove_notify_below {limit : Nat} {c : Ctx} {w : Wid} {addrs : List Addr} {own' : Own} {G : Block} {x x' : ISt}
+    {n : Node} {b : Block} (hS : Static c w addrs own') (hP : PhaseW c w addrs own' G x)
+    (hN : NodeOK c.own G x.node.known n b) (hinj : IdInj (x.node.chain ++ n.chain))
+    (hg0 : b.height = 0 → b.prev ≠ x.v.best.hash)
+    (h : istep limit c w addrs x (.notify n b) = some x') : PhaseW c w addrs own' G x' :=
+  phaseW_notify hS hP hN hinj hg0 h
+
+
+/-- **remove_interleaved_below_from_inv** — `remove_interleaved_below` stated from the hypotheses of the full statement
+    `remove_interleaved_projects_full` (C01's invariant for the full keystore table, `w` flagged, every other keystore's
+    wallet ready, …) plus: the flagged wallet's balance entry is its ledger total, some wallet is ready, and the history is
+    inside `DomW`.  The differences to the open `def` are exactly these three. -/
+theorem remove_interleaved_below_from_inv (limit : Nat) (c : Ctx) (w : Wid) (addrs : List Addr) (own' : Own) (G : Block)
+    (x0 x : ISt) (evs : List IEv) (ws' : List Wid)
+    (hKN : KeysNodup c.own) (H : RemHyp c w addrs own' c.node.chain) (hg : GoodChain c.node.chain)
+    (hgen : c.node.chain[0]? = some G) (hnode : x0.node = c.node) (hfin : x0.fin = false)
+    (hbest : x0.v.best = tipMeta c.node.chain) (hI : Inv c x0.s c.node.chain) (hn : KeysNodup x0.s.credits)
+    (hflag : AMap.get x0.s.status w = some ⟨none, true⟩)
+    (hothers : ∀ a w' ch, AMap.get c.own a = some (w', ch) → w' ≠ w →
+      (readyWallets x0.s c.wallets).contains w' = true)
+    (hbalw : AMap.get x0.s.balance w = some (totalU (bookOf c.p c.own c.node.chain).L w))
+    (hrne : (readyWallets x0.s c.wallets).isEmpty = false)
+    (hD : DomW limit c w addrs G x0 evs) (hws : ∀ y ∈ ws', y ∈ c.wallets)
+    (hrun : irun limit c w addrs x0 evs = some x) (hfinx : x.fin = true) :
+    Inv { c with own := own', wallets := ws', node := x.node } x.s x.node.chain :=
+  MW.Lemmas.RemoveInterleave.remove_interleaved_below
+    (phase1_of_inv hKN H hg hgen hnode hfin hbest hI hn hflag hothers hbalw hrne) ⟨H.minus, H.managed, H.ne, hKN⟩ hD hrun
+    hfinx hws
+
+
+/-- non-vacuity: every hypothesis, on the D45 history -/
+example (x : ISt) (h : irun 1 MW.Lemmas.RemoveMidCex.ctx "W2" ["A2"] MW.Lemmas.RemoveMidCex.x0
+      MW.Lemmas.RemoveMidCex.evs = some x) (hf : x.fin = true) :
+    Inv { MW.Lemmas.RemoveMidCex.ctx with own := MW.Lemmas.RemoveMidCex.own', wallets := ["W1"], node := x.node } x.s
+      x.node.chain :=
+  remove_interleaved_below_from_inv 1 MW.Lemmas.RemoveMidCex.ctx "W2" ["A2"] MW.Lemmas.RemoveMidCex.own'
+    MW.Lemmas.RemoveMidCex.g MW.Lemmas.RemoveMidCex.x0 x MW.Lemmas.RemoveMidCex.evs ["W1"]
+    MW.Lemmas.RemoveMidCex.own_nodup MW.Lemmas.RemoveMidCex.remHyp MW.Lemmas.RemoveMidCex.goodA rfl rfl rfl rfl
+    MW.Lemmas.RemoveMidCex.inv_stF MW.Lemmas.RemoveMidCex.stF_nodup MW.Lemmas.RemoveMidCex.stF_flagged
+    MW.Lemmas.RemoveMidCex.others_ready (by decide)
+    (by show (readyWallets MW.Lemmas.RemoveMidCex.stF ["W1", "W2"]).isEmpty = false
+        rw [MW.Lemmas.RemoveMidCex.readyF]; rfl)
+    MW.Lemmas.RemoveBelowEx.domW MW.Lemmas.RemoveInterleave2Ex.only_w1 h hf
+
+end Round7
 
 -- ------------------------------------------------------------------ byte level (Round 4): id-prefix scans on real byte keys
 section Codec
